@@ -17,10 +17,10 @@
      `compile_lex_error` — an expression on which the lexer fails never compiles (parser-wide invariant,
      `Proofs/ParserInv.lean`); `compile_ok_lexes` — whatever compiles is a whitespace-separated sequence of well-shaped
      tokens.
-  7. `json_decode_sound`  — `Json.decode s = some v → JsonText s` (RFC 8259 on bytes), and `isValidNumber_iff`:
-                            the number scanner accepts exactly the RFC 8259 number grammar.
-                            NOT proved: completeness of the whole decoder (`JsonText s → (Json.decode s).isSome` for
-                            nesting depth ≤ `maxDepth`); only numbers are done in both directions.
+  7. `json_decode_sound`  — `Json.decode s = some v → JsonText s` (RFC 8259 on bytes);
+     `json_decode_complete` — `JsonText s → s.length ≤ maxDepth → (Json.decode s).isSome` (the length bound implies the
+                            nesting-depth bound of the decoder); `json_decode_iff`; `isValidNumber_iff`: the number
+                            scanner accepts exactly the RFC 8259 number grammar; `parseJSONLiteral_sound`.
   8. regression witnesses `w_*`: concrete strings that used to compile to something else.
   9. `selectObjectLoop_bad_key`, `selectObjectLoop_no_colon`, `selectObjectLoop_bad_separator`,
      `selectObjectLoop_ok_inv`; `indexP` in three phases (`indexP_eq`, proved by `rfl`) with
@@ -34,6 +34,7 @@
 import Jmes.Spec.Lexical
 import Jmes.Proofs.Lex
 import Jmes.Proofs.JsonGrammar
+import Jmes.Proofs.JsonComplete
 import Jmes.Proofs.Pratt
 import Jmes.Proofs.ParserInv
 namespace Jmes.C04
@@ -200,6 +201,16 @@ example : ∃ e', compile [0x61, 0x20, 0x23] = .error e' :=
 theorem json_decode_sound {s : Bytes} {v : Val} (h : Json.decode s = some v) : JsonText s :=
   JsonGrammar.decode_sound h
 
+/-- completeness of the decoder: every JSON text of at most `maxDepth` (= 10000) bytes — so of nesting depth at most
+    `maxDepth` — is accepted -/
+theorem json_decode_complete {s : Bytes} (h : JsonText s) (hlen : s.length ≤ Json.maxDepth) :
+    (Json.decode s).isSome = true :=
+  JsonGrammar.decode_complete h hlen
+
+/-- on texts of at most `maxDepth` bytes the decoder accepts exactly the JSON texts -/
+theorem json_decode_iff {s : Bytes} (hlen : s.length ≤ Json.maxDepth) : (Json.decode s).isSome = true ↔ JsonText s :=
+  JsonGrammar.decode_isSome_iff hlen
+
 /-- the number scanner accepts exactly the RFC 8259 number grammar -/
 theorem isValidNumber_iff (s : Bytes) : Json.isValidNumber s = true ↔ JNumber s :=
   JsonGrammar.isValidNumber_iff s
@@ -217,6 +228,10 @@ theorem parseJSONLiteral_sound {tok : Bytes} {v : Val} (h : parseJSONLiteral tok
 example : (Json.decode [0x20, 0x5B, 0x31, 0x2C, 0x20, 0x22, 0x61, 0x22, 0x5D, 0x20]).isSome = true := by decide +kernel
 example : Json.decode [0x22, 0x61, 0x62, 0x63] = none := by decide +kernel
 example : Json.decode [0x30, 0x31] = none := by decide +kernel
+-- `[]` is a JSON text, hence decoded
+example : (Json.decode [0x5B, 0x5D]).isSome = true :=
+  json_decode_complete ⟨[], [0x5B, 0x5D], [], rfl, (by intro b h; cases h), JValue.arrEmpty [] (by intro b h; cases h),
+    (by intro b h; cases h)⟩ (by decide)
 example : JsonText [0x31] :=
   ⟨[], [0x31], [], rfl, (by intro b h; cases h),
     JValue.num _ ((isValidNumber_iff _).1 (by decide)), (by intro b h; cases h)⟩
